@@ -13,6 +13,10 @@ reg("C20", "exploration", [
     P("fpcfg", "all", package="fpcfg", features="cfg_libm", name="cfg-libm"),
     P("fpcfg", "all", package="fpcfg", features="cfg_mm", name="cfg-mm"),
     P("fpcfg", "all", package="fpcfg", features="cfg_std", name="cfg-std"),
+    # the micromath and fallback configurations again without debug assertions (a guard compiled only into debug builds, or an
+    # overflow that wraps instead of panicking, shows up here only)
+    P("fpcfg", "all", package="fpcfg", features="cfg_mm", profile="verif-rel", name="cfg-mm-rel"),
+    P("fpcfg", "all", package="fpcfg", features="cfg_none", profile="verif-rel", name="cfg-none-rel"),
 ])
 reg("C12", "exploration", [P("tex", "all"),
     # the repeating sampler again in the float configurations whose floor / rem_euclid are not std's
